@@ -316,6 +316,20 @@ class Extractor:
             if a or b:
                 return c + [('alt', substitute(R.render(n['cond']), subst), a, b, n['id'], f)]
             return c
+        if k == 'CallExpr' and n.get('callee', {}).get('qname') == 'std::generate_n' and len(f.call_args(n)) == 3:
+            # std::generate_n(std::back_inserter(X), N, []{ return <expr>; }): N times X.push_back(<expr>)
+            a = f.call_args(n)
+            d0 = f.nodes[f.strip(a[0], 'all')]
+            lam = f.nodes[f.strip(a[2], 'all')]
+            if d0['k'] == 'CallExpr' and d0.get('callee', {}).get('qname') == 'std::back_inserter' and d0.get('args') and lam['k'] == 'LambdaExpr':
+                body = [x for x in lam['ch'] if f.nodes[x]['k'] == 'CompoundStmt']
+                st = [f.nodes[x] for x in f.nodes[body[0]]['ch']] if body else []
+                if len(st) == 1 and st[0]['k'] == 'ReturnStmt' and st[0]['ch']:
+                    dest_ = substitute(R.render(d0['args'][0]), subst) + '[+]'
+                    inner = self.expr_items(f, R, st[0]['ch'][0], subst, depth, dest=dest_)
+                    if inner:
+                        return out + [('loop', subst_poly(P.poly(f, a[1], R), subst), None, inner, n['id'], f)]
+                    return out
         if k == 'CallExpr' and n.get('callee', {}).get('qname') == 'std::for_each':
             from paths import lambda_params
             lp = [v for v in lambda_params(f).values() if v[2] == n['id']]
